@@ -38,30 +38,33 @@ Ltac usteps := repeat ustep.
 
 (** * Unary parametricity *)
 
+(* forward chaining: [lem : f .. c = Ok (.., c') -> I c -> I c'] applied to a hypothesis *)
+Ltac fw lem := match goal with H : _ = Ok _ |- _ => apply lem in H; [|assumption] end.
+
 Section Unary.
 Variable text : bytes.
 Variable C : Type.
 Variable ev : token -> C -> res C.
 Variable I : C -> Prop.
-Hypothesis HI : forall tok c c', I c -> ev tok c = Ok c' -> I c'.
+Hypothesis HI : forall tok c c', ev tok c = Ok c' -> I c -> I c'.
 
-Local Hint Resolve HI : core.
+Ltac u0 := repeat fw HI.
 
 Lemma u_parse_comment s c s' c' :
   parse_comment text C ev s c = Ok (s', c') -> I c -> I c'.
-Proof. unfold parse_comment. intros H Hi. usteps; eauto. Qed.
+Proof. unfold parse_comment. intros H Hi. usteps; u0; assumption. Qed.
 
 Lemma u_parse_pi s c s' c' :
   parse_pi text C ev s c = Ok (s', c') -> I c -> I c'.
-Proof. unfold parse_pi. intros H Hi. usteps; eauto. Qed.
+Proof. unfold parse_pi. intros H Hi. usteps; u0; assumption. Qed.
 
-Local Hint Resolve u_parse_comment u_parse_pi : core.
+Ltac u1 := repeat first [fw HI | fw u_parse_comment | fw u_parse_pi].
 
 Lemma u_parse_misc_loop fuel : forall s c s' c',
   parse_misc_loop text C ev fuel s c = Ok (s', c') -> I c -> I c'.
 Proof.
   induction fuel; intros s c s' c' H Hi; [discriminate|].
-  cbn [parse_misc_loop] in H. usteps; eauto.
+  cbn [parse_misc_loop] in H. usteps; u1; try assumption; eapply IHfuel; eassumption.
 Qed.
 
 Lemma u_parse_misc s c s' c' :
@@ -70,66 +73,179 @@ Proof. unfold parse_misc. apply u_parse_misc_loop. Qed.
 
 Lemma u_parse_entity_decl s c s' c' :
   parse_entity_decl text C ev s c = Ok (s', c') -> I c -> I c'.
-Proof. unfold parse_entity_decl. intros H Hi. usteps; eauto. Qed.
+Proof. unfold parse_entity_decl. intros H Hi. usteps; u0; assumption. Qed.
 
-Local Hint Resolve u_parse_misc u_parse_entity_decl : core.
+Ltac u2 := repeat first [fw HI | fw u_parse_comment | fw u_parse_pi | fw u_parse_misc
+                        | fw u_parse_entity_decl].
 
 Lemma u_parse_doctype_loop fuel : forall start s c s' c',
   parse_doctype_loop text C ev fuel start s c = Ok (s', c') -> I c -> I c'.
 Proof.
   induction fuel; intros start s c s' c' H Hi; [discriminate|].
-  cbn [parse_doctype_loop] in H. usteps; eauto.
+  cbn [parse_doctype_loop] in H. usteps; u2; try assumption; eapply IHfuel; eassumption.
 Qed.
 
 Lemma u_parse_doctype s c s' c' :
   parse_doctype text C ev s c = Ok (s', c') -> I c -> I c'.
 Proof.
-  unfold parse_doctype. intros H Hi. usteps; eauto using u_parse_doctype_loop.
+  unfold parse_doctype. intros H Hi. usteps; u2; try assumption.
+  eapply u_parse_doctype_loop; eassumption.
 Qed.
 
 Lemma u_parse_element_loop fuel : forall ts s c o s' c',
   parse_element_loop text C ev fuel ts s c = Ok (o, s', c') -> I c -> I c'.
 Proof.
   induction fuel; intros ts s c o s' c' H Hi; [discriminate|].
-  cbn [parse_element_loop] in H. usteps; eauto.
+  cbn [parse_element_loop] in H. usteps; u0; try assumption; eapply IHfuel; eassumption.
 Qed.
 
 Lemma u_parse_element s c o s' c' :
   parse_element text C ev s c = Ok (o, s', c') -> I c -> I c'.
 Proof.
-  unfold parse_element. intros H Hi. usteps; eauto using u_parse_element_loop.
+  unfold parse_element. intros H Hi. usteps; u0.
+  eapply u_parse_element_loop; eassumption.
 Qed.
 
 Lemma u_parse_cdata s c s' c' :
   parse_cdata text C ev s c = Ok (s', c') -> I c -> I c'.
-Proof. unfold parse_cdata. intros H Hi. usteps; eauto. Qed.
+Proof. unfold parse_cdata. intros H Hi. usteps; u0; assumption. Qed.
 
 Lemma u_parse_close_element s c s' c' :
   parse_close_element text C ev s c = Ok (s', c') -> I c -> I c'.
-Proof. unfold parse_close_element. intros H Hi. usteps; eauto. Qed.
+Proof. unfold parse_close_element. intros H Hi. usteps; u0; assumption. Qed.
 
 Lemma u_parse_text s c s' c' :
   parse_text text C ev s c = Ok (s', c') -> I c -> I c'.
-Proof. unfold parse_text. intros H Hi. usteps; eauto. Qed.
+Proof. unfold parse_text. intros H Hi. usteps; u0; assumption. Qed.
 
-Local Hint Resolve u_parse_doctype u_parse_element u_parse_cdata u_parse_close_element
-  u_parse_text : core.
+Ltac u3 := repeat first [fw HI | fw u_parse_comment | fw u_parse_pi | fw u_parse_misc
+                        | fw u_parse_doctype | fw u_parse_element | fw u_parse_cdata
+                        | fw u_parse_close_element | fw u_parse_text ].
 
 Lemma u_parse_content_loop fuel : forall depth s c s' c',
   parse_content_loop text C ev fuel depth s c = Ok (s', c') -> I c -> I c'.
 Proof.
   induction fuel; intros depth s c s' c' H Hi; [discriminate|].
-  cbn [parse_content_loop] in H. usteps; eauto.
+  cbn [parse_content_loop] in H. usteps; u3; try assumption; eapply IHfuel; eassumption.
 Qed.
 
 Lemma u_parse_content s c s' c' :
   parse_content text C ev s c = Ok (s', c') -> I c -> I c'.
 Proof. unfold parse_content. apply u_parse_content_loop. Qed.
 
-Local Hint Resolve u_parse_content : core.
-
 Lemma u_parse_document dtd c c' :
   parse_document text C ev dtd c = Ok c' -> I c -> I c'.
-Proof. unfold parse_document. intros H Hi. usteps; eauto 8. Qed.
+Proof.
+  unfold parse_document. intros H Hi. usteps; repeat first [fw u_parse_content | u3]; assumption.
+Qed.
 
 End Unary.
+
+(** * Result relations with an optional early exit of the left run *)
+
+Section GRel.
+Variable en : Prop.          (* is the early exit enabled *)
+Variable e0 : error.         (* the error of the early exit *)
+
+Inductive grel {X1 X2} (P : X1 -> X2 -> Prop) (Q2 : X2 -> Prop) : res X1 -> res X2 -> Prop :=
+| gr_ok x1 x2 : P x1 x2 -> grel P Q2 (Ok x1) (Ok x2)
+| gr_err e : grel P Q2 (Err e) (Err e)
+| gr_panic p : grel P Q2 (Panic p) (Panic p)
+| gr_fuel : grel P Q2 OutOfFuel OutOfFuel
+| gr_early r2 : en -> (forall x2, r2 = Ok x2 -> Q2 x2) -> grel P Q2 (Err e0) r2.
+
+Lemma grel_bind {X1 X2 Y1 Y2} (P : X1 -> X2 -> Prop) (Q2 : X2 -> Prop)
+      (P' : Y1 -> Y2 -> Prop) (Q2' : Y2 -> Prop) r1 r2 k1 k2 :
+  grel P Q2 r1 r2 ->
+  (forall x1 x2, P x1 x2 -> grel P' Q2' (k1 x1) (k2 x2)) ->
+  (en -> forall x2 y, Q2 x2 -> k2 x2 = Ok y -> Q2' y) ->
+  grel P' Q2' (bind r1 k1) (bind r2 k2).
+Proof.
+  intros Hr Hk Hs. destruct Hr; cbn [bind]; try (constructor; fail); auto.
+  apply gr_early; auto. intros y Hy. apply bind_ok in Hy. destruct Hy as [x [Hx Hy]].
+  eapply Hs; eauto.
+Qed.
+
+Lemma grel_mono {X1 X2} (P P' : X1 -> X2 -> Prop) (Q2 Q2' : X2 -> Prop) r1 r2 :
+  grel P Q2 r1 r2 ->
+  (forall x1 x2, P x1 x2 -> P' x1 x2) -> (forall x2, Q2 x2 -> Q2' x2) ->
+  grel P' Q2' r1 r2.
+Proof.
+  intros Hr HP HQ. destruct Hr; try (constructor; auto; fail).
+  apply gr_early; auto.
+Qed.
+
+Lemma grel_err_at {X1 X2} (P : X1 -> X2 -> Prop) Q2 text s mk :
+  grel P Q2 (err_at text s mk) (err_at text s mk).
+Proof. unfold err_at. destruct (gen_text_pos text s); cbn [bind]; constructor. Qed.
+
+Lemma grel_err_from {X1 X2} (P : X1 -> X2 -> Prop) Q2 text p mk :
+  grel P Q2 (err_from text p mk) (err_from text p mk).
+Proof. unfold err_from. destruct (gen_text_pos_from text p); cbn [bind]; constructor. Qed.
+
+End GRel.
+
+(* relation on (value, state) pairs: same value, related states *)
+Definition prel {A C1 C2} (R : C1 -> C2 -> Prop) (x1 : A * C1) (x2 : A * C2) : Prop :=
+  fst x1 = fst x2 /\ R (snd x1) (snd x2).
+Definition psnd {A C2} (Q : C2 -> Prop) (x : A * C2) : Prop := Q (snd x).
+
+(* one step of a lockstep proof; calls of callbacks / tokenizer functions are left to [tac] *)
+Ltac bstep :=
+  match goal with
+  | |- grel _ _ _ _ (Ok _) (Ok _) => apply gr_ok; try (split; [reflexivity | cbn [snd]; assumption])
+  | |- grel _ _ _ _ (Err _) (Err _) => apply gr_err
+  | |- grel _ _ _ _ (Panic _) (Panic _) => apply gr_panic
+  | |- grel _ _ _ _ OutOfFuel OutOfFuel => apply gr_fuel
+  | |- grel _ _ _ _ (err_at _ _ _) (err_at _ _ _) => apply grel_err_at
+  | |- grel _ _ _ _ (err_from _ _ _) (err_from _ _ _) => apply grel_err_from
+  | |- grel _ _ _ _ (bind ?r _) (bind ?r _) => destruct r; cbn [bind]
+  | |- grel _ _ _ _ (if ?b then _ else _) (if ?b then _ else _) => destruct b eqn:?
+  | |- grel _ _ _ _ (let '(_, _) := ?x in _) (let '(_, _) := ?x in _) => destruct x
+  | |- grel _ _ _ _ (match ?x with _ => _ end) (match ?x with _ => _ end) => destruct x eqn:?
+  end.
+
+(* a call related by [lem]; leaves the continuation (with the related pair destructed)
+   and the side condition *)
+Ltac bcall lem :=
+  eapply grel_bind;
+  [ eapply lem; eassumption
+  | let x1 := fresh "x" in let x2 := fresh "x" in let HP := fresh "HP" in
+    intros x1 x2 HP;
+    try (destruct x1 as [? ?], x2 as [? ?], HP as [? ?]; cbn [fst snd] in *; subst)
+  | ].
+
+(* the shape of a side condition: [en -> forall x2 y, Q2 x2 -> k x2 = Ok y -> Q2' y] *)
+Ltac side_intro :=
+  let x := fresh "x" in let y := fresh "y" in let Hq := fresh "Hq" in let H := fresh "H" in
+  intros _ x y Hq H; unfold psnd in *;
+  try (destruct x as [? ?]); cbn [fst snd] in *; cbv beta iota zeta in H.
+
+Section Binary.
+Variable text : bytes.
+Variables C1 C2 : Type.
+Variable ev1 : token -> C1 -> res C1.
+Variable ev2 : token -> C2 -> res C2.
+Variable en : Prop.
+Variable e0 : error.
+Variable R : C1 -> C2 -> Prop.
+Variable Q : C2 -> Prop.
+Hypothesis Hev : forall tok c1 c2, R c1 c2 -> grel en e0 R Q (ev1 tok c1) (ev2 tok c2).
+Hypothesis HQ : forall tok c c', ev2 tok c = Ok c' -> Q c -> Q c'.
+
+Notation PR := (prel R).
+Notation PQ := (psnd Q).
+Notation G := (grel en e0 PR PQ).
+
+Ltac q0 := repeat fw HQ.
+
+Lemma b_parse_comment s c1 c2 : R c1 c2 ->
+  G (parse_comment text C1 ev1 s c1) (parse_comment text C2 ev2 s c2).
+Proof.
+  intros HR. unfold parse_comment.
+  repeat bstep.
+  bcall Hev. repeat bstep.
+  side_intro. usteps; q0; assumption.
+Qed.
+
+End Binary.
